@@ -187,3 +187,13 @@ func init() { NativeFuncs["RefRegexpValid"] = RefRegexpValid }
 func Or(a, b bool) bool      { return a || b }
 func And(a, b bool) bool     { return a && b }
 func Implies(a, b bool) bool { return !a || b }
+
+// SkeletonPath returns the path of the setup file of a skeleton package. Natively the skeleton
+// module is materialised (slots substituted according to the replay table) under $VERIF_SK_DIR.
+func SkeletonPath(name string) string {
+	root := os.Getenv("VERIF_SK_DIR")
+	if root == "" {
+		root = "/verif/skeletons"
+	}
+	return root + "/" + name + "/setup.go"
+}
